@@ -30,8 +30,9 @@ var (
 )
 
 type xmpReader struct {
-	r *bufio.Reader
-	a bool
+	r   *bufio.Reader
+	a   bool
+	eof bool // the underlying reader has reported io.EOF
 }
 
 func newXMPReader(r io.Reader) xmpReader {
@@ -81,7 +82,15 @@ func (br *xmpReader) hasAttribute() bool {
 }
 
 func (br *xmpReader) Peek(n int) (buf []byte, err error) {
-	if buf, err = br.r.Peek(n); err == io.EOF {
+	if br.eof && n > br.r.Buffered() && n <= br.r.Size() {
+		// The underlying reader is exhausted: asking it again cannot deliver more.
+		buf, _ = br.r.Peek(br.r.Buffered())
+		err = io.EOF
+	} else {
+		buf, err = br.r.Peek(n)
+	}
+	if err == io.EOF {
+		br.eof = true
 		if len(buf) > 4 {
 			return buf, nil
 		}
